@@ -30,6 +30,8 @@ Fixpoint of_scmd (c : scmd) : sx :=
   | SSetTypeAhead b => L [I 19%Z; of_bool b]
   | SHandlerAsk h b => L [I 20%Z; of_nat h; of_bool b]
   | SHandlerWait h => L [I 21%Z; of_nat h]
+  | SConnect c k => L [I 22%Z; of_nat c; of_nat k]
+  | SEmit c p => L [I 23%Z; of_nat c; I p]
   | SSetInputRequired b => L [I 12%Z; of_bool b]
   | SSetAnswer a => L [I 13%Z; of_answer a]
   | SMark n => L [I 14%Z; of_nat n]
